@@ -401,7 +401,9 @@ func specEntryErr(f vF, e *vEntry) bool {
 	if e.stream == 5 && only1 {
 		return true
 	}
-	if e.certs != nil {
+	// asking for client certificates without TLS is contradictory; saying "no client certificates" never is
+	// (config.proto: use_tls_client_certs "must be false if use_tls is false")
+	if e.certs != nil && *e.certs {
 		if e.tls != nil && !*e.tls {
 			return true
 		}
